@@ -309,14 +309,23 @@ class StateEngine(object):
         try:
             context = event["context"]
             execution_arn = context["Execution"]["Id"]
-            execution = self.executions.get(execution_arn)
-            if not execution or execution.get("status") != "RUNNING":
-                return
-
             state_machine = self.asl_store.get_cached_view(
                 context["StateMachine"]["Id"]
             )
             if not state_machine:
+                return
+
+            """
+            An event for a state other than the start state belongs to an
+            execution that has been started, even if this instance no longer
+            knows about it because it has been restarted since.
+            """
+            if (state_machine.get("type") == "STANDARD" and
+                context.get("State", {}).get("Name")):
+                self.restore_execution_metadata(execution_arn)
+
+            execution = self.executions.get(execution_arn)
+            if not execution or execution.get("status") != "RUNNING":
                 return
 
             event["data"] = {"Error": "States.Runtime", "Cause": message}
